@@ -45,7 +45,7 @@ example :
     A change of what one of them calls or how it branches breaks this theorem; the check then searches for a
     failing input and reports either that or `no-failing-input-found`. -/
 theorem C14_transcription_pinned :
-    Generated.skel_buffer_Reset = 14868616085021877868 ∧
+    Generated.skel_buffer_Reset = 11902779909231066397 ∧
     Generated.skel_pool_GetBuffer = 9516455317887111451 ∧
     Generated.skel_pool_ReleaseBuffer = 6290261172033971419 := by decide
 -- END transcription pins
